@@ -276,3 +276,42 @@ Fixpoint valid_pairs (ps ws : list Q) : list (Q * Q) :=
   | p :: ps', w :: ws' => if impossible p then valid_pairs ps' ws' else (p, w) :: valid_pairs ps' ws'
   | _, _ => []
   end.
+
+(* ------------------------------------------------------------------ comparators for the correspondence cases *)
+
+Definition Qabs_t (x : Q) : Q := if Qle_bool 0 x then x else - x.
+Definition close_t (tol a b : Q) : bool :=
+  Qle_bool (Qabs_t (a - b)) (tol * (if Qle_bool 1 (Qabs_t a) then Qabs_t a else 1)).
+
+Definition wres_agrees (tol : Q) (m : wres) (observed : option Q) : bool :=
+  match m, observed with
+  | WAssert, None => true
+  | WOk v, Some o => close_t tol v o
+  | _, _ => false
+  end.
+
+(* weighted_average_percentages: 0 = agrees with the code as modelled (wavg); 10 = agrees only with the repaired
+   variant wavg_spec (somebody applied the repair); 1 = acceptance differs; 2 = value differs *)
+Definition check_wavg (tol : Q) (ps ws : list Q) (observed : option Q) : nat :=
+  if wres_agrees tol (wavg ps ws) observed then 0
+  else if wres_agrees tol (wavg_spec ps ws) observed then 10
+  else match wavg ps ws, observed with
+       | WOk _, Some _ => 2
+       | _, _ => 1
+       end.
+
+Definition set_cells (ovs : list (string * option Q)) (r : row) : row :=
+  fold_left (fun r kv => set_cell (fst kv) (snd kv) r) ovs r.
+
+(* verify_country_data on row number i of the table with some cells replaced:
+   0 agree; 1 model accepts, implementation rejects; 2 model rejects, implementation accepts; 3 no such row *)
+Definition check_verify (rows : list row) (i : nat) (ovs : list (string * option Q)) (accepted : bool) : nat :=
+  match nth_error rows i with
+  | None => 3
+  | Some r =>
+    match verify_ok (set_cells ovs r), accepted with
+    | true, true | false, false => 0
+    | true, false => 1
+    | false, true => 2
+    end
+  end.
